@@ -1,7 +1,8 @@
 (* Extract/D19.v — text interpreter of the C19 model: one scenario = one case line.
 
    scn <next0> tok tok ...
-     b4.<p>.<m>.<tmo> / b6.<p>.<m>.<tmo>   Begin of call p (Ping / Ping6 with timeout argument tmo:
+     b4.<p>.<m>.<tmo> / b6.. / br..   Begin of call p (Ping / Ping6 / the internal ping with the router's
+                               IP as source (ValidateDefaultRouter's second ping), with timeout argument tmo:
                                <ms> decimal, possibly 0 or negative, n<ns>, or huge); m = g (sent), a (address family error,
                                nothing on the wire), w (Conn.WriteTo failed)
      s                         snapshot of the table size
@@ -47,14 +48,14 @@ Definition parse_tok (w : string) : option tok :=
         | Some p, Some ok => Some (TSent p ok)
         | _, _ => None
         end
-      else if String.eqb k "q4" || String.eqb k "q6" then
+      else if String.eqb k "q4" || String.eqb k "q6" || String.eqb k "qr" then
         match nat_of_dec a, tmo_of_tok m with
         | Some p, Some t => Some (TReg p t)
         | _, _ => None
         end
       else None
   | [k; a; m; tm] =>
-      if String.eqb k "b4" || String.eqb k "b6" then
+      if String.eqb k "b4" || String.eqb k "b6" || String.eqb k "br" then
         match nat_of_dec a, tmo_of_tok tm with
         | Some p, Some t =>
             if String.eqb m "g" then Some (TBegin p t true true)
